@@ -46,6 +46,11 @@ TEXT = {
         "note": "Trusted: Lean kernel, the go/ast extractor, the abstraction of the cache as (source, options) -> AST. Watch mode is not covered by a theorem.",
         "technique": "Lean 4 proof over regenerated facts (translator route) + rebuild-vs-fresh-build history search",
     },
+    "C11": {
+        "level": "Lean theorem (all keys, all requests) that applicable subpath patterns never tie in PATTERN_KEY_COMPARE, so esbuild's sorted first-match is Node's unique best match independent of JSON key order; the pattern selection of the real resolver is tied to the model by correspondence on a mock file system. Agreement of whole resolutions with Node is decided by asking Node itself on generated package trees: a search.",
+        "note": "Trusted: Lean kernel, correspondence harness, Node 20 as oracle. Legacy trailing-slash mappings and specifiers ending in / are excluded as in the property; percent-encoded specifiers are not generated (esbuild does not URL-decode them: candidate finding, not yet probed).",
+        "technique": "Lean 4 proof on hand-written model + differential correspondence; Node-as-oracle resolution search",
+    },
 }
 
 _pending = "check not built yet in this session (work in progress; the Lean-proof technique does apply — see DESIGN.md §4)"
